@@ -504,3 +504,709 @@ VARIANTS += [
  C('scan-helper-single-statement-shortcut', 'flagged(oci/selected-only)',
    '\tif policy := policyDoc.selectStatement(artifactPath); policy != nil {', BYPASS + '\tif policy := policyDoc.selectStatement(artifactPath); policy != nil {'),
 ]
+
+# =====================================================================================================================
+# Second pass: rewrite CLASSES (held-out refactorings). For each class a few members (`silent`) and the same shapes with
+# the property broken (`flagged`).
+# =====================================================================================================================
+
+# --- class I: candidates remembered by POSITION (integer variables, "none" = negative constant), element cloned once at the exit
+OCI_BYINDEX = '''	const notFound = -1
+	wildcardIndex, applicableIndex := notFound, notFound
+	for i := range policyDoc.TrustPolicies {
+		registryScopes := policyDoc.TrustPolicies[i].RegistryScopes
+		if slices.Contains(registryScopes, trustpolicy.Wildcard) {
+			wildcardIndex = i
+			continue
+		}
+		if slices.Contains(registryScopes, artifactPath) {
+			applicableIndex = i
+		}
+	}
+
+	switch {
+	case applicableIndex != notFound:
+		return policyDoc.TrustPolicies[applicableIndex].clone(), nil
+	case wildcardIndex != notFound:
+		return policyDoc.TrustPolicies[wildcardIndex].clone(), nil
+	default:
+		return nil, ''' + ERR + '''
+	}
+}
+'''
+# member 2: classic for loop, if/else chain, >= 0 tests, the selected element copied into a local before it is cloned
+OCI_BYINDEX2 = '''	exactAt, wildcardAt := -1, -1
+	for n := 0; n < len(policyDoc.TrustPolicies); n++ {
+		if slices.Contains(policyDoc.TrustPolicies[n].RegistryScopes, artifactPath) && !slices.Contains(policyDoc.TrustPolicies[n].RegistryScopes, trustpolicy.Wildcard) {
+			exactAt = n
+		} else if slices.Contains(policyDoc.TrustPolicies[n].RegistryScopes, trustpolicy.Wildcard) {
+			wildcardAt = n
+		}
+	}
+	if exactAt >= 0 {
+		statement := policyDoc.TrustPolicies[exactAt]
+		return statement.clone(), nil
+	}
+	if wildcardAt < 0 {
+		return nil, ''' + ERR + '''
+	}
+	statement := policyDoc.TrustPolicies[wildcardAt]
+	return statement.clone(), nil
+}
+'''
+# member 3: one "selected" position merged from the two, single success exit
+OCI_BYINDEX3 = '''	wildcardIndex, applicableIndex := -1, -1
+	for i := range policyDoc.TrustPolicies {
+		statement := &policyDoc.TrustPolicies[i]
+		if slices.Contains(statement.RegistryScopes, trustpolicy.Wildcard) {
+			wildcardIndex = i
+		} else if slices.Contains(statement.RegistryScopes, artifactPath) {
+			applicableIndex = i
+		}
+	}
+	selected := applicableIndex
+	if selected < 0 {
+		selected = wildcardIndex
+	}
+	if selected < 0 {
+		return nil, ''' + ERR + '''
+	}
+	return policyDoc.TrustPolicies[selected].clone(), nil
+}
+'''
+def I(name, expect, frm=None, to=None, extra=(), body=OCI_BYINDEX):
+    if frm is not None:
+        assert body.count(frm) == 1, name
+        body = body.replace(frm, to)
+    return dict(name=name, expect=expect, edits=[(O, OCI_BODY, body)] + list(extra))
+VARIANTS += [
+ I('benign-index-candidates', 'silent'),
+ I('benign-index-candidates-for-loop-local-copy', 'silent', body=OCI_BYINDEX2),
+ I('benign-index-candidates-merged-position', 'silent', body=OCI_BYINDEX3),
+ dict(name='benign-index-candidates-path-inlined', expect='silent', edits=[(O, OCI_BODY, OCI_BYINDEX), (O, PATH_CALL, PATH_INLINE)]),
+ I('index-candidates-wildcard-first', 'flagged(oci/precedence)',
+   '\tcase applicableIndex != notFound:\n\t\treturn policyDoc.TrustPolicies[applicableIndex].clone(), nil\n\tcase wildcardIndex != notFound:\n\t\treturn policyDoc.TrustPolicies[wildcardIndex].clone(), nil\n',
+   '\tcase wildcardIndex != notFound:\n\t\treturn policyDoc.TrustPolicies[wildcardIndex].clone(), nil\n\tcase applicableIndex != notFound:\n\t\treturn policyDoc.TrustPolicies[applicableIndex].clone(), nil\n'),
+ I('index-candidates-prefix-match', 'flagged(oci/selection-predicate)', 'if slices.Contains(registryScopes, artifactPath) {', 'if hasPrefixScope(registryScopes, artifactPath) {', [PREFIX_HELPER]),
+ I('index-candidates-remembers-neighbour', 'flagged(oci/selection-predicate)', '\t\t\tapplicableIndex = i\n', '\t\t\tapplicableIndex = (i + 1) % len(policyDoc.TrustPolicies)\n'),
+ I('index-candidates-remembers-first', 'flagged(oci/selection-predicate)', '\t\t\tapplicableIndex = i\n', '\t\t\tapplicableIndex = 0\n'),
+ I('index-candidates-tests-other-statement', 'flagged(oci/selection-predicate)',
+   'registryScopes := policyDoc.TrustPolicies[i].RegistryScopes', 'registryScopes := policyDoc.TrustPolicies[len(policyDoc.TrustPolicies)-1-i].RegistryScopes'),
+ I('index-candidates-break-on-wildcard', 'flagged(oci/no-early-exit)', '\t\t\twildcardIndex = i\n\t\t\tcontinue\n', '\t\t\twildcardIndex = i\n\t\t\tbreak\n'),
+ I('index-candidates-positive-test', 'flagged(oci/precedence)', '\tcase applicableIndex != notFound:', '\tcase applicableIndex > 0:'),
+ I('index-candidates-zero-means-none', 'flagged(oci/precedence)',
+   '\tconst notFound = -1\n', '\tconst notFound = 0\n'),
+ I('index-candidates-exit-uses-other-position', 'flagged(oci/precedence)',
+   '\tcase applicableIndex != notFound:\n\t\treturn policyDoc.TrustPolicies[applicableIndex].clone(), nil', '\tcase applicableIndex != notFound:\n\t\treturn policyDoc.TrustPolicies[wildcardIndex+1].clone(), nil'),
+ I('index-candidates-list-resliced-before-use', 'flagged(oci/selected-only)',
+   '\n\tswitch {\n', '\n\tpolicyDoc.TrustPolicies = policyDoc.TrustPolicies[1:]\n\tswitch {\n'),
+ I('index-candidates-returns-element-pointer', 'flagged(returns-clone)',
+   'return policyDoc.TrustPolicies[applicableIndex].clone(), nil', 'return &policyDoc.TrustPolicies[applicableIndex], nil'),
+ I('index-candidates-merged-position-wildcard-first', 'flagged(oci/precedence)',
+   '\tselected := applicableIndex\n\tif selected < 0 {\n\t\tselected = wildcardIndex\n\t}\n', '\tselected := wildcardIndex\n\tif selected < 0 {\n\t\tselected = applicableIndex\n\t}\n', body=OCI_BYINDEX3),
+ I('index-candidates-merged-position-none-not-refused', 'flagged(oci/precedence)',
+   '\tif selected < 0 {\n\t\treturn nil, ' + ERR + '\n\t}\n', '\tif selected < 0 {\n\t\tselected = 0\n\t}\n\tif len(policyDoc.TrustPolicies) == 0 {\n\t\treturn nil, ' + ERR + '\n\t}\n', body=OCI_BYINDEX3),
+]
+
+# --- class II: the scan extracted at other boundaries: a helper that returns BOTH candidates (pointers into the document),
+#     the membership test as a method of the statement, one `selected` local with guard clauses, clone at the single success exit
+OCI_TWO = '''	scopedPolicy, wildcardPolicy := policyDoc.findStatements(artifactPath)
+	selectedPolicy := scopedPolicy
+	if selectedPolicy == nil {
+		selectedPolicy = wildcardPolicy
+	}
+	if selectedPolicy == nil {
+		return nil, ''' + ERR + '''
+	}
+	return selectedPolicy.clone(), nil
+}
+
+func (policyDoc *OCIDocument) findStatements(artifactPath string) (scoped, wildcard *OCITrustPolicy) {
+	for i := range policyDoc.TrustPolicies {
+		statement := &policyDoc.TrustPolicies[i]
+		if statement.hasRegistryScope(trustpolicy.Wildcard) {
+			wildcard = statement
+		} else if statement.hasRegistryScope(artifactPath) {
+			scoped = statement
+		}
+	}
+	return scoped, wildcard
+}
+
+func (t *OCITrustPolicy) hasRegistryScope(scope string) bool {
+	return slices.Contains(t.RegistryScopes, scope)
+}
+'''
+# member 2: the helper holds scan, precedence and error; the method forwards its results
+OCI_SCANERR = '''	return policyDoc.selectStatement(artifactPath, artifactReference)
+}
+
+func (policyDoc *OCIDocument) selectStatement(artifactPath, artifactReference string) (*OCITrustPolicy, error) {
+	var wildcardPolicy, applicablePolicy *OCITrustPolicy
+	for i := range policyDoc.TrustPolicies {
+		if slices.Contains(policyDoc.TrustPolicies[i].RegistryScopes, trustpolicy.Wildcard) {
+			wildcardPolicy = &policyDoc.TrustPolicies[i]
+		} else if slices.Contains(policyDoc.TrustPolicies[i].RegistryScopes, artifactPath) {
+			applicablePolicy = &policyDoc.TrustPolicies[i]
+		}
+	}
+	if applicablePolicy != nil {
+		return applicablePolicy.clone(), nil
+	}
+	if wildcardPolicy != nil {
+		return wildcardPolicy.clone(), nil
+	}
+	return nil, ''' + ERR + '''
+}
+'''
+# member 3: scan helper returns both candidates, a second helper picks, the method refuses nil and clones
+OCI_PICK = '''	selectedPolicy := preferScoped(policyDoc.findStatements(artifactPath))
+	if selectedPolicy == nil {
+		return nil, ''' + ERR + '''
+	}
+	return selectedPolicy.clone(), nil
+}
+
+func preferScoped(scoped, wildcard *OCITrustPolicy) *OCITrustPolicy {
+	if scoped != nil {
+		return scoped
+	}
+	return wildcard
+}
+
+func (policyDoc *OCIDocument) findStatements(artifactPath string) (scoped, wildcard *OCITrustPolicy) {
+	for i := range policyDoc.TrustPolicies {
+		statement := &policyDoc.TrustPolicies[i]
+		if slices.Contains(statement.RegistryScopes, trustpolicy.Wildcard) {
+			wildcard = statement
+		} else if slices.Contains(statement.RegistryScopes, artifactPath) {
+			scoped = statement
+		}
+	}
+	return scoped, wildcard
+}
+'''
+# member 4: base loop, single exit with a result local and an error local
+OCI_SINGLE_EXIT = OCI_BODY.replace('''	if applicablePolicy != nil {
+		// a policy with exact match for registry scope takes precedence over
+		// a wildcard (*) policy.
+		return applicablePolicy, nil
+	} else if wildcardPolicy != nil {
+		return wildcardPolicy, nil
+	} else {
+		return nil, ''' + ERR + '''
+	}
+''', '''	var selected *OCITrustPolicy
+	var selectErr error
+	switch {
+	case applicablePolicy != nil:
+		selected = applicablePolicy
+	case wildcardPolicy != nil:
+		selected = wildcardPolicy
+	default:
+		selectErr = ''' + ERR + '''
+	}
+	return selected, selectErr
+''')
+assert OCI_SINGLE_EXIT != OCI_BODY
+def II(name, expect, frm=None, to=None, extra=(), body=OCI_TWO):
+    if frm is not None:
+        assert body.count(frm) == 1, name
+        body = body.replace(frm, to)
+    return dict(name=name, expect=expect, edits=[(O, OCI_BODY, body)] + list(extra))
+VARIANTS += [
+ II('benign-scan-helper-two-candidates', 'silent'),
+ II('benign-scan-helper-with-error-result', 'silent', body=OCI_SCANERR),
+ II('benign-scan-helper-and-pick-helper', 'silent', body=OCI_PICK),
+ II('benign-single-exit-result-and-error-locals', 'silent', body=OCI_SINGLE_EXIT),
+ II('two-candidates-helper-swaps-results', 'flagged(oci/precedence)', '\treturn scoped, wildcard\n', '\treturn wildcard, scoped\n'),
+ II('two-candidates-wildcard-first', 'flagged(oci/precedence)',
+   '\tselectedPolicy := scopedPolicy\n\tif selectedPolicy == nil {\n\t\tselectedPolicy = wildcardPolicy\n\t}\n', '\tselectedPolicy := wildcardPolicy\n\tif selectedPolicy == nil {\n\t\tselectedPolicy = scopedPolicy\n\t}\n'),
+ II('two-candidates-method-prefix-match', 'flagged(oci/selection-predicate)',
+   '\treturn slices.Contains(t.RegistryScopes, scope)\n', '\treturn hasPrefixScope(t.RegistryScopes, scope)\n', [PREFIX_HELPER]),
+ II('two-candidates-method-other-receiver', 'flagged(oci/selection-predicate)',
+   '} else if statement.hasRegistryScope(artifactPath) {', '} else if policyDoc.TrustPolicies[0].hasRegistryScope(artifactPath) {'),
+ II('two-candidates-nil-not-refused', 'flagged(oci/precedence)',
+   '\tif selectedPolicy == nil {\n\t\treturn nil, ' + ERR + '\n\t}\n', '\tif selectedPolicy == nil && len(policyDoc.TrustPolicies) == 0 {\n\t\treturn nil, ' + ERR + '\n\t}\n'),
+ II('two-candidates-returns-document-pointer', 'flagged(returns-clone)', '\treturn selectedPolicy.clone(), nil\n', '\treturn selectedPolicy, nil\n'),
+ II('two-candidates-helper-breaks-on-wildcard', 'flagged(oci/no-early-exit)', '\t\t\twildcard = statement\n', '\t\t\twildcard = statement\n\t\t\tbreak\n'),
+ II('scan-helper-with-error-wildcard-first', 'flagged(oci/precedence)',
+   '\tif applicablePolicy != nil {\n\t\treturn applicablePolicy.clone(), nil\n\t}\n\tif wildcardPolicy != nil {\n\t\treturn wildcardPolicy.clone(), nil\n\t}\n',
+   '\tif wildcardPolicy != nil {\n\t\treturn wildcardPolicy.clone(), nil\n\t}\n\tif applicablePolicy != nil {\n\t\treturn applicablePolicy.clone(), nil\n\t}\n', body=OCI_SCANERR),
+ II('scan-helper-with-error-ignored-by-method', 'flagged(oci/precedence)',
+   '\treturn policyDoc.selectStatement(artifactPath, artifactReference)\n', '\tstatement, _ := policyDoc.selectStatement(artifactPath, artifactReference)\n\treturn statement, nil\n', body=OCI_SCANERR),
+ II('pick-helper-prefers-wildcard', 'flagged(oci/precedence)',
+   '\tif scoped != nil {\n\t\treturn scoped\n\t}\n\treturn wildcard\n', '\tif wildcard != nil {\n\t\treturn wildcard\n\t}\n\treturn scoped\n', body=OCI_PICK),
+ II('single-exit-locals-wildcard-first', 'flagged(oci/precedence)',
+   '\tcase applicablePolicy != nil:\n\t\tselected = applicablePolicy\n\tcase wildcardPolicy != nil:\n\t\tselected = wildcardPolicy\n', '\tcase wildcardPolicy != nil:\n\t\tselected = wildcardPolicy\n\tcase applicablePolicy != nil:\n\t\tselected = applicablePolicy\n', body=OCI_SINGLE_EXIT),
+ II('single-exit-locals-error-dropped', 'flagged(oci/precedence)', '\treturn selected, selectErr\n', '\t_ = selectErr\n\treturn selected, nil\n', body=OCI_SINGLE_EXIT),
+]
+
+# --- class III: the fresh copies of a clone made by copier helpers / standard library copies
+CLONE_OCI_HELPER = CLONE_OCI_BASE.replace('append([]string(nil), t.TrustedIdentities...)', 'cloneStrings(t.TrustedIdentities)').replace('append([]string(nil), t.TrustStores...)', 'cloneStrings(t.TrustStores)').replace('append([]string(nil), t.RegistryScopes...)', 'cloneStrings(t.RegistryScopes)')
+CLONE_BLOB_HELPER = CLONE_BLOB_BASE.replace('append([]string(nil), t.TrustedIdentities...)', 'cloneStrings(t.TrustedIdentities)').replace('append([]string(nil), t.TrustStores...)', 'cloneStrings(t.TrustStores)')
+ERRTYPE = 'type errPolicyNotExist struct{}\n'
+COPIER1 = 'func cloneStrings(s []string) []string {\n\treturn append([]string(nil), s...)\n}\n\n'
+COPIER2 = 'func cloneStrings(s []string) []string {\n\tif s == nil {\n\t\treturn nil\n\t}\n\tout := make([]string, len(s))\n\tcopy(out, s)\n\treturn out\n}\n\n'
+OVERRIDE_BASE = '''	if signatureVerification.Override != nil {
+		override := make(map[ValidationType]ValidationAction, len(signatureVerification.Override))
+		for k, v := range signatureVerification.Override {
+			override[k] = v
+		}
+		signatureVerification.Override = override
+	}
+	return signatureVerification
+'''
+OVERRIDE_MAPSCLONE = '''	signatureVerification.Override = maps.Clone(signatureVerification.Override)
+	return signatureVerification
+'''
+OVERRIDE_HELPER = '''	signatureVerification.Override = cloneOverride(signatureVerification.Override)
+	return signatureVerification
+'''
+OVERRIDE_COPIER = '''func cloneOverride(m map[ValidationType]ValidationAction) map[ValidationType]ValidationAction {
+	if m == nil {
+		return nil
+	}
+	out := make(map[ValidationType]ValidationAction, len(m))
+	for k, v := range m {
+		out[k] = v
+	}
+	return out
+}
+
+'''
+MAPS_IMPORT = (T, '\t"io/fs"\n', '\t"io/fs"\n\t"maps"\n')
+def III(name, expect, copier=COPIER1, override=None, extra=()):
+    edits = [(O, CLONE_OCI_BASE, CLONE_OCI_HELPER), (B, CLONE_BLOB_BASE, CLONE_BLOB_HELPER), (T, ERRTYPE, copier + ERRTYPE)]
+    if override is not None:
+        edits.append((T, OVERRIDE_BASE, override))
+    return dict(name=name, expect=expect, edits=edits + list(extra))
+VARIANTS += [
+ III('benign-clone-copier-helper-mapsclone', 'silent', override=OVERRIDE_MAPSCLONE, extra=[MAPS_IMPORT]),
+ III('benign-clone-copier-helper-make-copy', 'silent', copier=COPIER2),
+ III('benign-clone-override-copier-helper', 'silent', copier=COPIER1 + OVERRIDE_COPIER, override=OVERRIDE_HELPER),
+ III('clone-copier-appends-in-place', 'flagged(clone/)', copier=COPIER1.replace('append([]string(nil), s...)', 'append(s[:0], s...)')),
+ III('clone-copier-returns-empty-source', 'flagged(clone/)', copier=COPIER2.replace('\tif s == nil {\n\t\treturn nil\n\t}\n', '\tif len(s) == 0 {\n\t\treturn s\n\t}\n')),
+ III('clone-copier-returns-source-on-one-path', 'flagged(clone/)', copier=COPIER2.replace('\tout := make([]string, len(s))\n\tcopy(out, s)\n\treturn out\n', '\tout := make([]string, len(s))\n\tif copy(out, s) == 1 {\n\t\treturn s\n\t}\n\treturn out\n')),
+ III('clone-override-copier-returns-source', 'flagged(clone/)', copier=COPIER1 + OVERRIDE_COPIER.replace('\tout := make(map[ValidationType]ValidationAction, len(m))\n\tfor k, v := range m {\n\t\tout[k] = v\n\t}\n\treturn out\n', '\tout := m\n\treturn out\n'), override=OVERRIDE_HELPER),
+]
+
+# --- class IV: blob search helper that returns a pointer INTO the document, predicate closures, clone at the callers' exits
+BLOB_FIRST_PTR = '''func (policyDoc *BlobDocument) firstStatement(match func(*BlobTrustPolicy) bool) *BlobTrustPolicy {
+	for i := range policyDoc.TrustPolicies {
+		if statement := &policyDoc.TrustPolicies[i]; match(statement) {
+			return statement
+		}
+	}
+	return nil
+}
+
+'''
+BLOB_NAME_END2 = BLOB_NAME_BASE + '\treturn nil, fmt.Errorf("no applicable blob trust policy with name %q", policyName)\n'
+BLOB_GLOBAL_END2 = BLOB_GLOBAL_BASE + '\treturn nil, fmt.Errorf("no global blob trust policy")\n'
+BLOB_NAME_PTR = '''	statement := policyDoc.firstStatement(func(t *BlobTrustPolicy) bool {
+		return t.Name == policyName
+	})
+	if statement == nil {
+		return nil, fmt.Errorf("no applicable blob trust policy with name %q", policyName)
+	}
+	return statement.clone(), nil
+'''
+BLOB_GLOBAL_PTR = '''	statement := policyDoc.firstStatement(func(t *BlobTrustPolicy) bool {
+		return t.GlobalPolicy
+	})
+	if statement == nil {
+		return nil, fmt.Errorf("no global blob trust policy")
+	}
+	return statement.clone(), nil
+'''
+def IV(name, expect, what=None, frm=None, to=None):
+    parts = dict(first=BLOB_FIRST_PTR, name=BLOB_NAME_PTR, glob=BLOB_GLOBAL_PTR)
+    if what is not None:
+        assert parts[what].count(frm) == 1, name
+        parts[what] = parts[what].replace(frm, to)
+    return dict(name=name, expect=expect, edits=[(B, BLOB_NAME_END2, parts['name']), (B, BLOB_GLOBAL_END2, parts['glob']), (B, BLOB_CLONE_DOC, parts['first'] + BLOB_CLONE_DOC)])
+VARIANTS += [
+ IV('benign-blob-pointer-helper-clone-at-exit', 'silent'),
+ IV('blob-pointer-helper-not-cloned', 'flagged(returns-clone)', 'glob', '\treturn statement.clone(), nil\n', '\treturn statement, nil\n'),
+ IV('blob-pointer-helper-not-found-takes-first', 'flagged(blob/by-name)', 'name', '\tif statement == nil {', '\tif statement == nil && len(policyDoc.TrustPolicies) > 0 {\n\t\tstatement = &policyDoc.TrustPolicies[0]\n\t}\n\tif statement == nil {'),
+ IV('blob-pointer-helper-predicate-fold', 'flagged(blob/by-name)', 'name', 'return t.Name == policyName', 'return strings.EqualFold(t.Name, policyName)'),
+ IV('blob-pointer-helper-returns-previous', 'flagged(blob/global)', 'first', '\t\t\treturn statement\n', '\t\t\treturn &policyDoc.TrustPolicies[(i+len(policyDoc.TrustPolicies)-1)%len(policyDoc.TrustPolicies)]\n'),
+ IV('blob-pointer-helper-last-as-fallback', 'flagged(blob/not-found)', 'first', '\t}\n\treturn nil\n}', '\t}\n\tif n := len(policyDoc.TrustPolicies); n > 0 {\n\t\treturn &policyDoc.TrustPolicies[n-1]\n\t}\n\treturn nil\n}'),
+]
+
+# --- class V: the verifier's call sites: the selection reached through a helper
+BLOB_SITE = '''	var trustPolicy *trustpolicy.BlobTrustPolicy
+	var err error
+	if opts.TrustPolicyName == "" {
+		trustPolicy, err = v.blobTrustPolicyDoc.GetGlobalTrustPolicy()
+	} else {
+		trustPolicy, err = v.blobTrustPolicyDoc.GetApplicableTrustPolicy(opts.TrustPolicyName)
+	}
+	if err != nil {
+		return nil, notation.ErrorNoApplicableTrustPolicy{Msg: err.Error()}
+	}
+'''
+BLOB_SITE_HELPER = '''	trustPolicy, err := v.selectBlobTrustPolicy(opts.TrustPolicyName)
+	if err != nil {
+		return nil, notation.ErrorNoApplicableTrustPolicy{Msg: err.Error()}
+	}
+'''
+VERIFY_DOC = '// Verify verifies the signature associated to the target OCI\n'
+# member 1: tail calls
+SEL_HELPER1 = '''func (v *verifier) selectBlobTrustPolicy(name string) (*trustpolicy.BlobTrustPolicy, error) {
+	if name == "" {
+		return v.blobTrustPolicyDoc.GetGlobalTrustPolicy()
+	}
+	return v.blobTrustPolicyDoc.GetApplicableTrustPolicy(name)
+}
+
+'''
+# member 2: single exit with result and error locals, the options struct handed on whole
+SEL_HELPER2 = '''func (v *verifier) selectBlobTrustPolicy(opts notation.BlobVerifierVerifyOptions) (*trustpolicy.BlobTrustPolicy, error) {
+	var statement *trustpolicy.BlobTrustPolicy
+	var err error
+	if opts.TrustPolicyName != "" {
+		statement, err = v.blobTrustPolicyDoc.GetApplicableTrustPolicy(opts.TrustPolicyName)
+	} else {
+		statement, err = v.blobTrustPolicyDoc.GetGlobalTrustPolicy()
+	}
+	return statement, err
+}
+
+'''
+# member 3: the helper converts the error, the caller returns the helper's error as it is
+SEL_HELPER3 = '''func (v *verifier) selectBlobTrustPolicy(name string) (*trustpolicy.BlobTrustPolicy, error) {
+	var statement *trustpolicy.BlobTrustPolicy
+	var err error
+	if name == "" {
+		statement, err = v.blobTrustPolicyDoc.GetGlobalTrustPolicy()
+	} else {
+		statement, err = v.blobTrustPolicyDoc.GetApplicableTrustPolicy(name)
+	}
+	if err != nil {
+		return nil, notation.ErrorNoApplicableTrustPolicy{Msg: err.Error()}
+	}
+	return statement, nil
+}
+
+'''
+BLOB_SITE_PASS = '''	trustPolicy, err := v.selectBlobTrustPolicy(opts.TrustPolicyName)
+	if err != nil {
+		return nil, err
+	}
+'''
+# member 4: the OCI selection of Verify and SkipVerify shared in a converting helper
+OCI_SITE1 = '''	trustPolicy, err := v.ociTrustPolicyDoc.GetApplicableTrustPolicy(opts.ArtifactReference)
+	if err != nil {
+		return false, nil, notation.ErrorNoApplicableTrustPolicy{Msg: err.Error()}
+	}
+'''
+OCI_SITE2 = '''	trustPolicy, err := v.ociTrustPolicyDoc.GetApplicableTrustPolicy(artifactRef)
+	if err != nil {
+		return nil, notation.ErrorNoApplicableTrustPolicy{Msg: err.Error()}
+	}
+'''
+OCI_HELPER_CONV = '''func (v *verifier) applicableStatement(reference string) (*trustpolicy.OCITrustPolicy, error) {
+	statement, err := v.ociTrustPolicyDoc.GetApplicableTrustPolicy(reference)
+	if err != nil {
+		return nil, notation.ErrorNoApplicableTrustPolicy{Msg: err.Error()}
+	}
+	return statement, nil
+}
+
+'''
+def V_(name, expect, helper=SEL_HELPER1, site=BLOB_SITE_HELPER, frm=None, to=None, insite=False):
+    if frm is not None:
+        if insite:
+            assert site.count(frm) == 1, name
+            site = site.replace(frm, to)
+        else:
+            assert helper.count(frm) == 1, name
+            helper = helper.replace(frm, to)
+    return dict(name=name, expect=expect, edits=[(V, BLOB_SITE, site), (V, VERIFY_DOC, helper + VERIFY_DOC)])
+VARIANTS += [
+ V_('benign-callsite-helper-tail-calls', 'silent'),
+ V_('benign-callsite-helper-single-exit-options', 'silent', helper=SEL_HELPER2, site=BLOB_SITE_HELPER.replace('(opts.TrustPolicyName)', '(opts)')),
+ V_('benign-callsite-helper-converts', 'silent', helper=SEL_HELPER3, site=BLOB_SITE_PASS),
+ dict(name='benign-callsite-oci-helper-converts', expect='silent', edits=[
+   (V, OCI_SITE1, '\ttrustPolicy, err := v.applicableStatement(opts.ArtifactReference)\n\tif err != nil {\n\t\treturn false, nil, err\n\t}\n'),
+   (V, OCI_SITE2, '\ttrustPolicy, err := v.applicableStatement(artifactRef)\n\tif err != nil {\n\t\treturn nil, err\n\t}\n'),
+   (V, VERIFY_DOC, OCI_HELPER_CONV + VERIFY_DOC)]),
+ V_('callsite-helper-inverted', 'flagged(callsite/global-iff-no-name)', frm='\tif name == "" {', to='\tif name != "" {'),
+ V_('callsite-helper-given-constant-name', 'flagged(callsite/global-iff-no-name)', frm='v.selectBlobTrustPolicy(opts.TrustPolicyName)', to='v.selectBlobTrustPolicy("")', insite=True),
+ V_('callsite-helper-given-other-name', 'flagged(callsite/global-iff-no-name)', frm='v.selectBlobTrustPolicy(opts.TrustPolicyName)', to='v.selectBlobTrustPolicy(opts.SignatureMediaType)', insite=True),
+ V_('callsite-helper-named-falls-back-to-global', 'flagged(callsite/global-iff-no-name)',
+    frm='\treturn v.blobTrustPolicyDoc.GetApplicableTrustPolicy(name)\n', to='\tstatement, err := v.blobTrustPolicyDoc.GetApplicableTrustPolicy(name)\n\tif err != nil {\n\t\treturn v.blobTrustPolicyDoc.GetGlobalTrustPolicy()\n\t}\n\treturn statement, nil\n'),
+ V_('callsite-helper-error-ignored-by-caller', 'flagged(callsite/selection-required)',
+    frm='\ttrustPolicy, err := v.selectBlobTrustPolicy(opts.TrustPolicyName)\n\tif err != nil {\n\t\treturn nil, notation.ErrorNoApplicableTrustPolicy{Msg: err.Error()}\n\t}\n',
+    to='\ttrustPolicy, err := v.selectBlobTrustPolicy(opts.TrustPolicyName)\n\tif trustPolicy == nil {\n\t\ttrustPolicy = &trustpolicy.BlobTrustPolicy{}\n\t}\n', insite=True),
+ V_('callsite-helper-swallows-error', 'flagged(callsite/selection-required)', helper=SEL_HELPER2,
+    site=BLOB_SITE_HELPER.replace('(opts.TrustPolicyName)', '(opts)'), frm='\treturn statement, err\n', to='\tif err != nil {\n\t\treturn &trustpolicy.BlobTrustPolicy{}, nil\n\t}\n\treturn statement, nil\n'),
+ V_('callsite-helper-error-not-converted-anywhere', 'flagged(callsite/no-applicable-policy)', site=BLOB_SITE_PASS),
+ V_('callsite-converting-helper-caller-replaces-error', 'flagged(callsite/no-applicable-policy)', helper=SEL_HELPER3,
+    site=BLOB_SITE_PASS.replace('\t\treturn nil, err\n', '\t\treturn nil, errors.New("no trust policy")\n')),
+ V_('callsite-converting-helper-converts-one-branch-only', 'flagged(callsite/no-applicable-policy)', helper=SEL_HELPER3, site=BLOB_SITE_PASS,
+    frm='\tif err != nil {\n\t\treturn nil, notation.ErrorNoApplicableTrustPolicy{Msg: err.Error()}\n\t}\n', to='\tif err != nil && name == "" {\n\t\treturn nil, notation.ErrorNoApplicableTrustPolicy{Msg: err.Error()}\n\t}\n\tif err != nil {\n\t\treturn nil, err\n\t}\n'),
+]
+
+# --- class VI: the membership test spelled otherwise: a hand-written search helper (element == value), slices.Index found
+SCOPE_HELPER = (O, '// clone returns a pointer to the deep copied [OCITrustPolicy]',
+                'func listsScope(scopes []string, wanted string) bool {\n\tfor _, scope := range scopes {\n\t\tif scope == wanted {\n\t\t\treturn true\n\t\t}\n\t}\n\treturn false\n}\n\n// clone returns a pointer to the deep copied [OCITrustPolicy]')
+LOOP_CONTAINS = '''		if slices.Contains(policyStatement.RegistryScopes, trustpolicy.Wildcard) {
+			// we need to deep copy because we can't use the loop variable
+			// address. see https://stackoverflow.com/a/45967429
+			wildcardPolicy = (&policyStatement).clone()
+		} else if slices.Contains(policyStatement.RegistryScopes, artifactPath) {
+			applicablePolicy = (&policyStatement).clone()
+		}
+'''
+LOOP_HANDWRITTEN = '''		if listsScope(policyStatement.RegistryScopes, trustpolicy.Wildcard) {
+			wildcardPolicy = (&policyStatement).clone()
+		} else if listsScope(policyStatement.RegistryScopes, artifactPath) {
+			applicablePolicy = (&policyStatement).clone()
+		}
+'''
+STD_SLICES_O = [(O, '\t"regexp"\n', '\t"regexp"\n\t"slices"\n'), (O, '\t"github.com/notaryproject/notation-go/internal/slices"\n', '')]
+LOOP_STDINDEX = '''		if slices.Index(policyStatement.RegistryScopes, trustpolicy.Wildcard) >= 0 {
+			wildcardPolicy = (&policyStatement).clone()
+		} else if slices.Index(policyStatement.RegistryScopes, artifactPath) != -1 {
+			applicablePolicy = (&policyStatement).clone()
+		}
+'''
+def VI(name, expect, loop, frm=None, to=None, extra=()):
+    if frm is not None:
+        assert loop.count(frm) == 1, name
+        loop = loop.replace(frm, to)
+    return dict(name=name, expect=expect, edits=[(O, LOOP_CONTAINS, loop)] + list(extra))
+VARIANTS += [
+ VI('benign-membership-handwritten-helper', 'silent', LOOP_HANDWRITTEN, extra=[SCOPE_HELPER]),
+ VI('benign-membership-std-index', 'silent', LOOP_STDINDEX, extra=STD_SLICES_O),
+ VI('membership-handwritten-helper-prefix', 'flagged(oci/selection-predicate)', LOOP_HANDWRITTEN,
+    extra=[(SCOPE_HELPER[0], SCOPE_HELPER[1], SCOPE_HELPER[2].replace('if scope == wanted {', 'if scope == wanted || strings.HasPrefix(wanted, scope+"/") {'))]),
+ VI('membership-handwritten-helper-fold', 'flagged(oci/selection-predicate)', LOOP_HANDWRITTEN,
+    extra=[(SCOPE_HELPER[0], SCOPE_HELPER[1], SCOPE_HELPER[2].replace('if scope == wanted {', 'if strings.EqualFold(scope, wanted) {'))]),
+ VI('membership-handwritten-helper-default-true', 'flagged(oci/selection-predicate)', LOOP_HANDWRITTEN,
+    extra=[(SCOPE_HELPER[0], SCOPE_HELPER[1], SCOPE_HELPER[2].replace('\treturn false\n}', '\treturn len(scopes) == 1\n}'))]),
+ VI('membership-std-index-not-found-accepted', 'flagged(oci/selection-predicate)', LOOP_STDINDEX, 'slices.Index(policyStatement.RegistryScopes, artifactPath) != -1', 'slices.Index(policyStatement.RegistryScopes, artifactPath) >= -1', extra=STD_SLICES_O),
+ VI('membership-std-index-other-list', 'flagged(oci/selection-predicate)', LOOP_STDINDEX, 'slices.Index(policyStatement.RegistryScopes, artifactPath) != -1', 'slices.Index(policyStatement.TrustStores, artifactPath) != -1', extra=STD_SLICES_O),
+]
+
+# --- class V (continued): the error built by a constructor function; the empty name tested by its length
+NOAPP = '\t\treturn nil, notation.ErrorNoApplicableTrustPolicy{Msg: err.Error()}\n'
+CONSTRUCTOR = 'func noApplicablePolicy(cause error) error {\n\treturn notation.ErrorNoApplicableTrustPolicy{Msg: cause.Error()}\n}\n\n'
+VARIANTS += [
+ dict(name='benign-callsite-error-constructor', expect='silent', edits=[
+   (V, BLOB_SITE, BLOB_SITE.replace(NOAPP, '\t\treturn nil, noApplicablePolicy(err)\n')),
+   (V, OCI_SITE2, OCI_SITE2.replace(NOAPP, '\t\treturn nil, noApplicablePolicy(err)\n')),
+   (V, VERIFY_DOC, CONSTRUCTOR + VERIFY_DOC)]),
+ dict(name='callsite-error-constructor-other-type', expect='flagged(callsite/no-applicable-policy)', edits=[
+   (V, BLOB_SITE, BLOB_SITE.replace(NOAPP, '\t\treturn nil, noApplicablePolicy(err)\n')),
+   (V, VERIFY_DOC, CONSTRUCTOR.replace('notation.ErrorNoApplicableTrustPolicy{Msg: cause.Error()}', 'notation.ErrorVerificationFailed{Msg: cause.Error()}') + VERIFY_DOC)]),
+ dict(name='callsite-error-constructor-sometimes-other-type', expect='flagged(callsite/no-applicable-policy)', edits=[
+   (V, BLOB_SITE, BLOB_SITE.replace(NOAPP, '\t\treturn nil, noApplicablePolicy(err)\n')),
+   (V, VERIFY_DOC, CONSTRUCTOR.replace('\treturn notation.ErrorNoApplicableTrustPolicy{', '\tif cause == nil {\n\t\treturn errors.New("no policy")\n\t}\n\treturn notation.ErrorNoApplicableTrustPolicy{') + VERIFY_DOC)]),
+ dict(name='benign-callsite-name-tested-by-length', expect='silent', edits=[(V, '\tif opts.TrustPolicyName == "" {\n\t\ttrustPolicy, err = v.blobTrustPolicyDoc.GetGlobalTrustPolicy()', '\tif len(opts.TrustPolicyName) == 0 {\n\t\ttrustPolicy, err = v.blobTrustPolicyDoc.GetGlobalTrustPolicy()')]),
+ dict(name='callsite-name-tested-by-length-inverted', expect='flagged(callsite/global-iff-no-name)', edits=[(V, '\tif opts.TrustPolicyName == "" {\n\t\ttrustPolicy, err = v.blobTrustPolicyDoc.GetGlobalTrustPolicy()', '\tif len(opts.TrustPolicyName) > 0 {\n\t\ttrustPolicy, err = v.blobTrustPolicyDoc.GetGlobalTrustPolicy()')]),
+ dict(name='callsite-name-tested-by-length-one', expect='flagged(callsite/global-iff-no-name)', edits=[(V, '\tif opts.TrustPolicyName == "" {\n\t\ttrustPolicy, err = v.blobTrustPolicyDoc.GetGlobalTrustPolicy()', '\tif len(opts.TrustPolicyName) <= 1 {\n\t\ttrustPolicy, err = v.blobTrustPolicyDoc.GetGlobalTrustPolicy()')]),
+]
+
+# --- class V (continued): the error of each selection call tested in its own branch (guard clauses inside the branches)
+BLOB_SITE_BRANCHES = '''	var trustPolicy *trustpolicy.BlobTrustPolicy
+	if opts.TrustPolicyName == "" {
+		globalPolicy, err := v.blobTrustPolicyDoc.GetGlobalTrustPolicy()
+		if err != nil {
+			return nil, notation.ErrorNoApplicableTrustPolicy{Msg: err.Error()}
+		}
+		trustPolicy = globalPolicy
+	} else {
+		namedPolicy, err := v.blobTrustPolicyDoc.GetApplicableTrustPolicy(opts.TrustPolicyName)
+		if err != nil {
+			return nil, notation.ErrorNoApplicableTrustPolicy{Msg: err.Error()}
+		}
+		trustPolicy = namedPolicy
+	}
+	var err error
+'''
+VARIANTS += [
+ dict(name='benign-callsite-error-tested-per-branch', expect='silent', edits=[(V, BLOB_SITE, BLOB_SITE_BRANCHES)]),
+ dict(name='callsite-per-branch-one-error-ignored', expect='flagged(callsite/selection-required)', edits=[(V, BLOB_SITE, BLOB_SITE_BRANCHES.replace(
+   '\t\tglobalPolicy, err := v.blobTrustPolicyDoc.GetGlobalTrustPolicy()\n\t\tif err != nil {\n\t\t\treturn nil, notation.ErrorNoApplicableTrustPolicy{Msg: err.Error()}\n\t\t}\n',
+   '\t\tglobalPolicy, err := v.blobTrustPolicyDoc.GetGlobalTrustPolicy()\n\t\tif err != nil {\n\t\t\tglobalPolicy = &trustpolicy.BlobTrustPolicy{}\n\t\t}\n'))]),
+ dict(name='callsite-per-branch-swapped', expect='flagged(callsite/global-iff-no-name)', edits=[(V, BLOB_SITE, BLOB_SITE_BRANCHES.replace('\tif opts.TrustPolicyName == "" {', '\tif opts.TrustPolicyName != "" {'))]),
+]
+
+# --- class IV (continued): a generic search helper shared by the statement types; blob selection with result locals / single exit
+GENERIC_FIRST = '''func firstMatch[T any](list []T, match func(*T) bool) *T {
+	for i := range list {
+		if match(&list[i]) {
+			return &list[i]
+		}
+	}
+	return nil
+}
+
+'''
+BLOB_NAME_GENERIC = BLOB_NAME_PTR.replace('policyDoc.firstStatement(func', 'firstMatch(policyDoc.TrustPolicies, func')
+BLOB_GLOBAL_GENERIC = BLOB_GLOBAL_PTR.replace('policyDoc.firstStatement(func', 'firstMatch(policyDoc.TrustPolicies, func')
+assert BLOB_NAME_GENERIC != BLOB_NAME_PTR and BLOB_GLOBAL_GENERIC != BLOB_GLOBAL_PTR
+BLOB_NAME_LOCALS = '''	var found *BlobTrustPolicy
+	for i := range policyDoc.TrustPolicies {
+		if policyDoc.TrustPolicies[i].Name == policyName {
+			found = policyDoc.TrustPolicies[i].clone()
+			break
+		}
+	}
+	if found == nil {
+		return nil, fmt.Errorf("no applicable blob trust policy with name %q", policyName)
+	}
+	return found, nil
+'''
+BLOB_GLOBAL_LOCALS = '''	var statement *BlobTrustPolicy
+	err := fmt.Errorf("no global blob trust policy")
+	for _, policyStatement := range policyDoc.TrustPolicies {
+		if policyStatement.GlobalPolicy {
+			statement, err = (&policyStatement).clone(), nil
+			break
+		}
+	}
+	return statement, err
+'''
+def IVb(name, expect, nm, gl, extra=()):
+    return dict(name=name, expect=expect, edits=[(B, BLOB_NAME_END2, nm), (B, BLOB_GLOBAL_END2, gl)] + list(extra))
+GEN = (B, BLOB_CLONE_DOC, GENERIC_FIRST + BLOB_CLONE_DOC)
+VARIANTS += [
+ IVb('benign-blob-generic-search-helper', 'silent', BLOB_NAME_GENERIC, BLOB_GLOBAL_GENERIC, [GEN]),
+ IVb('blob-generic-search-helper-other-list', 'flagged(blob/by-name)', BLOB_NAME_GENERIC.replace('firstMatch(policyDoc.TrustPolicies, func', 'firstMatch(policyDoc.TrustPolicies[:1], func'), BLOB_GLOBAL_GENERIC, [GEN]),
+ IVb('blob-generic-search-helper-returns-next', 'flagged(blob/)', BLOB_NAME_GENERIC, BLOB_GLOBAL_GENERIC, [(B, BLOB_CLONE_DOC, GENERIC_FIRST.replace('\t\t\treturn &list[i]\n', '\t\t\treturn &list[(i+1)%len(list)]\n') + BLOB_CLONE_DOC)]),
+ IVb('benign-blob-result-locals-single-exit', 'silent', BLOB_NAME_LOCALS, BLOB_GLOBAL_LOCALS),
+ IVb('blob-result-locals-error-cleared-early', 'flagged(blob/)', BLOB_NAME_LOCALS, BLOB_GLOBAL_LOCALS.replace('\t\t\tstatement, err = (&policyStatement).clone(), nil\n\t\t\tbreak\n\t\t}\n', '\t\t\tstatement = (&policyStatement).clone()\n\t\t\tbreak\n\t\t}\n\t\terr = nil\n')),
+ IVb('blob-result-locals-break-without-match', 'flagged(blob/by-name)', BLOB_NAME_LOCALS.replace('\t\tif policyDoc.TrustPolicies[i].Name == policyName {\n\t\t\tfound = policyDoc.TrustPolicies[i].clone()\n\t\t\tbreak\n\t\t}\n', '\t\tfound = policyDoc.TrustPolicies[i].clone()\n\t\tif policyDoc.TrustPolicies[i].Name == policyName {\n\t\t\tbreak\n\t\t}\n'), BLOB_GLOBAL_LOCALS),
+]
+BLOB_FIRST_LOCAL = '''func (policyDoc *BlobDocument) firstStatement(match func(*BlobTrustPolicy) bool) *BlobTrustPolicy {
+	var found *BlobTrustPolicy
+	for i := range policyDoc.TrustPolicies {
+		if match(&policyDoc.TrustPolicies[i]) {
+			found = &policyDoc.TrustPolicies[i]
+			break
+		}
+	}
+	return found
+}
+
+'''
+def IVc(name, expect, first):
+    return dict(name=name, expect=expect, edits=[(B, BLOB_NAME_END2, BLOB_NAME_PTR), (B, BLOB_GLOBAL_END2, BLOB_GLOBAL_PTR), (B, BLOB_CLONE_DOC, first + BLOB_CLONE_DOC)])
+VARIANTS += [
+ IVc('benign-blob-pointer-helper-result-local-break', 'silent', BLOB_FIRST_LOCAL),
+ IVc('blob-pointer-helper-result-local-fallback', 'flagged(blob/)', BLOB_FIRST_LOCAL.replace('\treturn found\n', '\tif found == nil && len(policyDoc.TrustPolicies) > 0 {\n\t\tfound = &policyDoc.TrustPolicies[0]\n\t}\n\treturn found\n')),
+ IVc('blob-pointer-helper-result-local-no-break-keeps-last-tested', 'flagged(blob/)', BLOB_FIRST_LOCAL.replace('\t\tif match(&policyDoc.TrustPolicies[i]) {\n\t\t\tfound = &policyDoc.TrustPolicies[i]\n\t\t\tbreak\n\t\t}\n', '\t\tfound = &policyDoc.TrustPolicies[i]\n\t\tif match(found) {\n\t\t\tbreak\n\t\t}\n')),
+]
+
+# --- class I (continued): blob selection remembering the POSITION of the match
+BLOB_NAME_POS = '''	found := -1
+	for i := range policyDoc.TrustPolicies {
+		if policyDoc.TrustPolicies[i].Name == policyName {
+			found = i
+			break
+		}
+	}
+	if found < 0 {
+		return nil, fmt.Errorf("no applicable blob trust policy with name %q", policyName)
+	}
+	return policyDoc.TrustPolicies[found].clone(), nil
+'''
+BLOB_GLOBAL_POS = '''	position := -1
+	for i, policyStatement := range policyDoc.TrustPolicies {
+		if policyStatement.GlobalPolicy {
+			position = i
+			break
+		}
+	}
+	if position != -1 {
+		return policyDoc.TrustPolicies[position].clone(), nil
+	}
+	return nil, fmt.Errorf("no global blob trust policy")
+'''
+VARIANTS += [
+ IVb('benign-blob-position-remembered', 'silent', BLOB_NAME_POS, BLOB_GLOBAL_POS),
+ IVb('blob-position-none-is-first', 'flagged(blob/)', BLOB_NAME_POS.replace('\tfound := -1\n', '\tfound := 0\n').replace('\tif found < 0 {', '\tif len(policyDoc.TrustPolicies) == 0 {'), BLOB_GLOBAL_POS),
+ IVb('blob-position-test-admits-none', 'flagged(blob/)', BLOB_NAME_POS, BLOB_GLOBAL_POS.replace('\tif position != -1 {', '\tif position >= -1 && len(policyDoc.TrustPolicies) > 0 {\n\t\tif position < 0 {\n\t\t\tposition = 0\n\t\t}')),
+ IVb('blob-position-of-neighbour', 'flagged(blob/by-name)', BLOB_NAME_POS.replace('\t\t\tfound = i\n', '\t\t\tfound = len(policyDoc.TrustPolicies) - 1 - i\n'), BLOB_GLOBAL_POS),
+]
+
+# --- classes I+II combined: the scan helper returns the two POSITIONS
+OCI_POS_HELPER = '''	applicableIndex, wildcardIndex := policyDoc.findPositions(artifactPath)
+	switch {
+	case applicableIndex >= 0:
+		return policyDoc.TrustPolicies[applicableIndex].clone(), nil
+	case wildcardIndex >= 0:
+		return policyDoc.TrustPolicies[wildcardIndex].clone(), nil
+	}
+	return nil, ''' + ERR + '''
+}
+
+func (policyDoc *OCIDocument) findPositions(artifactPath string) (exact, wildcard int) {
+	exact, wildcard = -1, -1
+	for i := range policyDoc.TrustPolicies {
+		if slices.Contains(policyDoc.TrustPolicies[i].RegistryScopes, trustpolicy.Wildcard) {
+			wildcard = i
+		} else if slices.Contains(policyDoc.TrustPolicies[i].RegistryScopes, artifactPath) {
+			exact = i
+		}
+	}
+	return exact, wildcard
+}
+'''
+VARIANTS += [
+ II('benign-scan-helper-returns-positions', 'silent', body=OCI_POS_HELPER),
+ II('scan-helper-positions-swapped', 'flagged(oci/precedence)', '\treturn exact, wildcard\n', '\treturn wildcard, exact\n', body=OCI_POS_HELPER),
+ II('scan-helper-positions-prefix-match', 'flagged(oci/selection-predicate)', '} else if slices.Contains(policyDoc.TrustPolicies[i].RegistryScopes, artifactPath) {', '} else if hasPrefixScope(policyDoc.TrustPolicies[i].RegistryScopes, artifactPath) {', [PREFIX_HELPER], body=OCI_POS_HELPER),
+ II('scan-helper-positions-applied-to-other-list', 'flagged(oci/selected-only)', '\t\treturn policyDoc.TrustPolicies[applicableIndex].clone(), nil\n', '\t\treturn policyDoc.TrustPolicies[1:][applicableIndex].clone(), nil\n', body=OCI_POS_HELPER),
+ II('scan-helper-positions-shifted', 'flagged(oci/selection-predicate)', '\t\t\texact = i\n', '\t\t\texact = i / 2\n', body=OCI_POS_HELPER),
+]
+
+# --- class IV (continued): closure vs constructor of the closure: the predicates are made by functions
+BLOB_PRED_MAKERS = '''func hasName(name string) func(*BlobTrustPolicy) bool {
+	return func(t *BlobTrustPolicy) bool {
+		return t.Name == name
+	}
+}
+
+func isGlobal(t *BlobTrustPolicy) bool {
+	return t.GlobalPolicy
+}
+
+'''
+BLOB_NAME_MAKER = BLOB_NAME_PTR.replace('policyDoc.firstStatement(func(t *BlobTrustPolicy) bool {\n\t\treturn t.Name == policyName\n\t})', 'policyDoc.firstStatement(hasName(policyName))')
+BLOB_GLOBAL_MAKER = BLOB_GLOBAL_PTR.replace('policyDoc.firstStatement(func(t *BlobTrustPolicy) bool {\n\t\treturn t.GlobalPolicy\n\t})', 'policyDoc.firstStatement(isGlobal)')
+assert BLOB_NAME_MAKER != BLOB_NAME_PTR and BLOB_GLOBAL_MAKER != BLOB_GLOBAL_PTR
+def IVd(name, expect, nm=BLOB_NAME_MAKER, makers=BLOB_PRED_MAKERS):
+    return dict(name=name, expect=expect, edits=[(B, BLOB_NAME_END2, nm), (B, BLOB_GLOBAL_END2, BLOB_GLOBAL_MAKER), (B, BLOB_CLONE_DOC, makers + BLOB_FIRST_PTR + BLOB_CLONE_DOC)])
+VARIANTS += [
+ IVd('benign-blob-predicate-constructor', 'silent'),
+ IVd('blob-predicate-constructor-given-other-value', 'flagged(blob/by-name)', nm=BLOB_NAME_MAKER.replace('hasName(policyName)', 'hasName(strings.TrimSpace(policyName))')),
+ IVd('blob-predicate-constructor-prefix', 'flagged(blob/by-name)', makers=BLOB_PRED_MAKERS.replace('return t.Name == name', 'return strings.HasPrefix(t.Name, name)')),
+ IVd('blob-predicate-constructor-rebinds-name', 'flagged(blob/by-name)', makers=BLOB_PRED_MAKERS.replace('\treturn func(t *BlobTrustPolicy) bool {\n\t\treturn t.Name == name', '\tname = strings.ToLower(name)\n\treturn func(t *BlobTrustPolicy) bool {\n\t\treturn t.Name == name')),
+ IVd('blob-predicate-global-function-negated', 'flagged(blob/global)', makers=BLOB_PRED_MAKERS.replace('\treturn t.GlobalPolicy\n', '\treturn !t.GlobalPolicy\n')),
+]
+
+# --- class IV (continued): closure vs method value of a small state struct
+BLOB_MATCHER = '''type nameMatcher struct{ name string }
+
+func (m nameMatcher) matches(t *BlobTrustPolicy) bool {
+	return t.Name == m.name
+}
+
+func isGlobal(t *BlobTrustPolicy) bool {
+	return t.GlobalPolicy
+}
+
+'''
+BLOB_NAME_MATCHER = BLOB_NAME_PTR.replace('policyDoc.firstStatement(func(t *BlobTrustPolicy) bool {\n\t\treturn t.Name == policyName\n\t})', 'policyDoc.firstStatement(nameMatcher{name: policyName}.matches)')
+assert BLOB_NAME_MATCHER != BLOB_NAME_PTR
+VARIANTS += [
+ IVd('benign-blob-predicate-method-value', 'silent', nm=BLOB_NAME_MATCHER, makers=BLOB_MATCHER),
+ IVd('blob-predicate-method-value-other-name', 'flagged(blob/by-name)', nm=BLOB_NAME_MATCHER.replace('nameMatcher{name: policyName}', 'nameMatcher{name: strings.ToUpper(policyName)}'), makers=BLOB_MATCHER),
+ IVd('blob-predicate-method-value-fold', 'flagged(blob/by-name)', nm=BLOB_NAME_MATCHER, makers=BLOB_MATCHER.replace('return t.Name == m.name', 'return strings.EqualFold(t.Name, m.name)')),
+]
